@@ -161,25 +161,25 @@ theorem canReturnMultiple_sound {N : NumOps} (call : CallFn N) (ρ : ExtOracle N
             cases hz : evalE call ρ k env el σ2 <;> simp [hz] at h
             rw [← h.1]; simp [first]
 
-theorem litApi_sound : EvalSound litApi notInst where
-  truthy e b _ ht N call ρ k env σ σ' vs h := by
+theorem litApi_sound (N : NumOps) : EvalSound N litApi notInst where
+  truthy e b _ ht call ρ k env σ σ' vs h := by
     cases e <;> simp [EvalApi.isTruthy, litApi, LuaKind.isTruthy] at ht <;>
       (simp [evalE] at h; rw [← h.1]; subst ht; simp [first, Val.truthy])
-  pure e _ hs _ N call ρ k env σ σ' vs h := by
+  pure e _ hs _ call ρ k env σ σ' vs h := by
     cases e <;> simp [litApi] at hs <;> (simp [evalE] at h; exact h.2.symm)
-  str e s _ hk N call ρ k env σ σ' vs h := by
+  str e s _ hk call ρ k env σ σ' vs h := by
     cases e <;> simp [litApi] at hk
     simp [evalE] at h; rw [← h.1, hk]; simp [first]
-  single e hg hm N call ρ k env σ σ' vs h := by
+  single e hg hm call ρ k env σ σ' vs h := by
     cases e with
     | inst x t => exact absurd hg (by simp [notInst])
     | _ => exact canReturnMultiple_sound call ρ k env _ (by simpa [litApi] using hm) hg σ σ' vs h
 
-theorem litApi_total : EvalTotal litApi where
-  decided e b ht N call ρ k env σ σ' vs h := litApi_sound.truthy e b (by cases e <;> simp [EvalApi.isTruthy, litApi, LuaKind.isTruthy] at ht <;> trivial) ht call ρ k env σ σ' vs h
-  pureTotal e b ht _ N call ρ k env σ := by
+theorem litApi_total (N : NumOps) : EvalTotal N litApi where
+  decided e b ht call ρ k env σ σ' vs h := (litApi_sound N).truthy e b (by cases e <;> simp [EvalApi.isTruthy, litApi, LuaKind.isTruthy] at ht <;> trivial) ht call ρ k env σ σ' vs h
+  pureTotal e b ht _ call ρ k env σ := by
     cases e <;> simp [EvalApi.isTruthy, litApi, LuaKind.isTruthy] at ht <;> (right; simp [evalE])
-  single e hm N call ρ k env σ σ' vs h := by
+  single e hm call ρ k env σ σ' vs h := by
     cases e with
     | inst x t => simp [litApi] at hm
     | _ => exact canReturnMultiple_sound call ρ k env _ (by simpa [litApi] using hm) (by simp [notInst]) σ σ' vs h
